@@ -124,6 +124,17 @@ def synthetic_layouts(tier):
   return out
 
 
+def numeric_policy_ok(scn, codes):
+  """Modes the default policy refuses for the chosen concrete operator are skipped."""
+  ok4 = {"SRQ": ("FULLY_CONNECTED", "CONV_2D"), "DRQ": ("FULLY_CONNECTED", "EMBEDDING_LOOKUP"), "WO": ("BATCH_MATMUL", "FULLY_CONNECTED", "EMBEDDING_LOOKUP")}
+  for si, ms in enumerate(scn["mode"]):
+    for oi, m in enumerate(ms):
+      w = str(m.get("w", "-"))
+      if w.startswith("w4") and codes[si][oi] not in ok4.get(m["m"], ()):
+        return False
+  return True
+
+
 def main():
   args = common.parse_args(sys.argv[2:])
   chk = common.Check("C16", "model_checking", args)
@@ -164,6 +175,40 @@ def main():
       pipeline.apply_recipe(q, scn, info)
       return q
     cases.append(("random %d" % i, bq, (lambda scn=scn, info=info: pipeline.inject_stats(scn, info)), False))
+  # histories: the SAME Quantizer quantizes twice with different recipes (the second result must not depend on the first)
+  nhist = 25 if args.tier == "quick" else 600
+  for i in range(nhist):
+    scn_a = rgen.gen(args.seed * 7727 + i, 2, 5, kinds=["FC", "BMM", "EMB", "EW2", "FIXT", "TCONV"])
+    try:
+      model, info = synth.build(scn_a, args.seed + i)
+    except synth.Unrealisable:
+      continue
+    rnd = __import__("random").Random(args.seed * 31 + i)
+    scn_b = dict(scn_a, mode=[[rnd.choice(rgen.kind_modes(o["kind"])) for o in sub["ops"]] for sub in scn_a["subs"]], codes=info["codes"])
+    if not numeric_policy_ok(scn_b, info["codes"]) or not numeric_policy_ok(dict(scn_a, codes=info["codes"]), info["codes"]):
+      continue
+    def recipe_of(scn, model=model, info=info):
+      q = quantizer.Quantizer(model)
+      pipeline.apply_recipe(q, scn, info)
+      return json.loads(json.dumps(q.get_quantization_recipe()))
+    try:
+      ra, rb = recipe_of(dict(scn_a, codes=info["codes"])), recipe_of(scn_b)
+    except ValueError:
+      continue
+    class Hist:       # a Quantizer-like object whose quantize() runs the whole history and returns the LAST result
+      def __init__(self, model, ra, rb, cal):
+        self.q = quantizer.Quantizer(model)
+        self.ra, self.rb, self.cal = ra, rb, cal
+      def quantize(self, _):
+        self.q.load_quantization_recipe(self.ra)
+        try:
+          self.q.quantize(self.cal())
+        except Exception:  # pylint: disable=broad-except
+          pass
+        self.q.load_quantization_recipe(self.rb)
+        return self.q.quantize(self.cal())
+    calf = (lambda scn=scn_a, info=info: pipeline.inject_stats(scn, info))
+    cases.append(("history %d" % i, (lambda model=model, ra=ra, rb=rb, calf=calf: Hist(model, ra, rb, calf)), None, False))
   obs, meta = [], []
   nraise = 0
   for name, bq, cal, has_zero in cases:
@@ -207,6 +252,7 @@ def main():
       "states": r.distinct + ro.distinct, "transitions": r.generated + ro.generated, "traces_validated_against_impl": len(obs),
       "models_through_large_path": nlarge, "synthetic_layouts": sum(1 for m in meta if m[0].startswith("layout")),
       "random_quantized_models": sum(1 for m in meta if m[0].startswith("random")), "quantize_raised": nraise,
+      "two_call_histories_on_one_quantizer": sum(1 for m in meta if m[0].startswith("history")),
       "design_invariants_violated": design_violated,
       "evaluations": len(obs), "distinct_nontrivial": nlarge,
       "rule": "model = synthetic layout (description length 0..39 x 0..3 zero-length constants x 4 lists of odd-sized constants) or a random "
